@@ -37,7 +37,7 @@ def required_counters(tier):
     return {'judged:class': 200, 'judged:param': 500, 'judged:meta': 200, 'judged:membership-sky-vs-pixel': 500,
             'judged:membership-pixel-vs-sky': 500, 'judged:text-rotation': 5, 'lane:pix2sky2pix:CompoundPixelRegion': 3,
             'lane:sky2pix2sky:CompoundSkyRegion': 3, 'history-steps': 50, 'judged:history': 50, 'grid-sky-queries': 100, 'wide-field-cases': 8, 'queries-in-another-frame': 100,
-            'queries-in-same-frame-class-other-equinox': 10, 'judged:membership-other-query-frame': 300}
+            'queries-in-same-frame-class-other-equinox': 10, 'judged:membership-other-query-frame': 300, 'judged:orientation': 60}
 
 
 def generate(rng, tier, shard, nshards):
@@ -245,6 +245,38 @@ def check_counterpart(obs, src, dst, what):
         check_counterpart(obs, src.region2, dst.region2, what + '.region2')
 
 
+def orientation_probe(obs, sky, pix, w):
+    """independent of both conversions (they could be wrong the same way): for an elongated shape with an angle, the sky point at 0.8
+    of the LONG semi-axis from the centre - offset along the region's own axis, in the region's own frame, with astropy - lies inside
+    the pixel outline, the one at 1.25 of the SHORT semi-axis along the short axis lies outside it."""
+    import astropy.units as u
+    import regions
+    if not hasattr(sky, 'angle') or not hasattr(sky, 'center'):
+        return
+    wd = getattr(sky, 'width', getattr(sky, 'outer_width', None))
+    ht = getattr(sky, 'height', getattr(sky, 'outer_height', None))
+    if wd is None or ht is None:
+        return
+    a, b = float(wd.to_value(u.deg)), float(ht.to_value(u.deg))
+    if max(a, b) / min(a, b) < 1.6 or max(a, b) > 2.0:
+        return          # nearly round, or so large that the outline is visibly curved in the image
+    long_pa, short_pa = (sky.angle - 90 * u.deg, sky.angle) if a >= b else (sky.angle, sky.angle - 90 * u.deg)
+    p_in = sky.center.directional_offset_by(long_pa, 0.8 * max(a, b) / 2 * u.deg)
+    p_out = sky.center.directional_offset_by(short_pa, 1.25 * min(a, b) / 2 * u.deg)
+    name = type(pix).__name__
+    if 'Annulus' in name:
+        outer = (regions.EllipsePixelRegion if name.startswith('Ellipse') else regions.RectanglePixelRegion)(pix.center, pix.outer_width, pix.outer_height, pix.angle)
+    else:
+        outer = pix.copy(meta=regions.RegionMeta())
+    xi, yi = w.world_to_pixel(p_in)
+    xo, yo = w.world_to_pixel(p_out)
+    if not all(np.isfinite(float(v)) for v in (xi, yi, xo, yo)):
+        return
+    ok = bool(outer.contains(regions.PixCoord(float(xi), float(yi)))) and not bool(outer.contains(regions.PixCoord(float(xo), float(yo))))
+    obs.check(ok, 'pixel-shape-not-oriented-like-the-sky-shape', f'{type(sky).__name__} (angle {sky.angle}, {a:.4g} x {b:.4g} deg, frame {sky.center.frame.name}): the sky '
+              f'point at 0.8 of the long semi-axis / 1.25 of the short one lies outside / inside the pixel outline (pixel angle {pix.angle})', 'orientation')
+
+
 def membership_checks(obs, pix, sky, w, case):
     """sky.contains(s, w) vs pixel image; pix.contains(p) vs sky conversion."""
     from regions import PixCoord
@@ -406,6 +438,10 @@ def run_case(case, obs):
         fp0 = S.fingerprint(sky)
         pix = sky.to_pixel(w)
         check_counterpart(obs, sky, pix, 'to_pixel')
+        if case['wcs'].get('parity') == -1:
+            # (images of standard handedness only: on a mirrored image "the stated angle, counter-clockwise in the image" of C07 and the
+            # shape on the sky cannot both hold; C06 itself asks for round trips and membership there, which are judged below)
+            orientation_probe(obs, sky, pix, w)
         if type(sky).__name__ == 'TextSkyRegion' and 'rotation' in sky.visual:
             # independent expectation: the rotation is measured from the longitude axis on the sky and from +x in the image,
             # so it advances by (direction of local north in the image) - 90 deg; north from astropy, not from the library's helper
